@@ -10,6 +10,7 @@ import (
 	"fmt"
 	"math/rand"
 	"net/http"
+	"slices"
 	"sort"
 	"strings"
 
@@ -594,7 +595,69 @@ func handlerFor(m *cors.Middleware, spy http.Handler) http.Handler {
 	return m.Wrap(spy)
 }
 
-func emitServe(t *tracer, m *cors.Middleware, dbg bool, rs reqSpec, pre http.Header, inner *innerSpec, extra map[string]any) (panicked bool) {
+// Layers: what stands between the server and the middleware under test in a larger application.
+//   1  a layer that leaves behind exactly what an outer jub0bs/cors middleware that allows the origin leaves behind: the request's
+//      own first Origin value - the very slice - as Access-Control-Allow-Origin, and `Vary: Origin`
+//   2  a real outer middleware of this library (allow-all, every response header exposed) applied around the one under test
+//      (router-level policy around a route-level one); it answers preflights itself, so only other requests get through
+// What the middleware under test EMITS is what it adds to / replaces in the header map it was handed (slice identity tells
+// "replaced" from "left alone"; where the middleware may have stored the very slice that was already there, both readings are
+// recorded and the response is in order if either is).
+var outerAll *cors.Middleware
+
+func layered(layer int, next http.Handler, snap *http.Header) http.Handler {
+	snapshot := http.HandlerFunc(func(w http.ResponseWriter, r *http.Request) {
+		*snap = http.Header{}
+		for k, v := range w.Header() {
+			(*snap)[k] = v // the slices themselves
+		}
+		next.ServeHTTP(w, r)
+	})
+	switch layer {
+	case 1:
+		return http.HandlerFunc(func(w http.ResponseWriter, r *http.Request) {
+			if o := r.Header["Origin"]; len(o) > 0 {
+				w.Header()["Access-Control-Allow-Origin"] = o[:1]
+				w.Header().Add("Vary", "Origin")
+			}
+			snapshot.ServeHTTP(w, r)
+		})
+	case 2:
+		if outerAll == nil {
+			var err error
+			if outerAll, err = cors.NewMiddleware(cors.Config{Origins: []string{"*"}, ResponseHeaders: []string{"*"}}); err != nil {
+				fatal("outer middleware: %v", err)
+			}
+		}
+		return outerAll.Wrap(snapshot)
+	}
+	return next
+}
+
+// emittedOver: the part of `live` that the middleware added to or replaced in `pre`. min leaves out, max includes, the entries
+// that are the very slices of `pre` (amb of them carry an Access-Control-* name).
+func emittedOver(pre, live http.Header) (min, max http.Header, amb int) {
+	min, max = http.Header{}, http.Header{}
+	for k, v := range live {
+		pv, had := pre[k]
+		switch {
+		case !had:
+			min[k], max[k] = v, v
+		case len(v) == len(pv) && (len(v) == 0 || &v[0] == &pv[0]):
+			max[k] = v
+			if strings.HasPrefix(k, "Access-Control-") {
+				amb++
+			}
+		case len(v) > len(pv) && len(pv) > 0 && slices.Equal(v[:len(pv)], pv):
+			min[k], max[k] = v[len(pv):], v[len(pv):]
+		default:
+			min[k], max[k] = v, v
+		}
+	}
+	return
+}
+
+func emitServe(t *tracer, m *cors.Middleware, dbg bool, rs reqSpec, pre http.Header, inner *innerSpec, extra map[string]any, layer int) (panicked bool) {
 	defer func() {
 		if p := recover(); p != nil {
 			t.emit(map[string]any{"ev": "Panic", "what": fmt.Sprint(p), "m": rs.Method, "req": hdrJSON(rs.H)})
@@ -652,6 +715,28 @@ func emitServe(t *tracer, m *cors.Middleware, dbg bool, rs reqSpec, pre http.Hea
 				"what": "a handler that calls Config / SetDebug / Reconfigure(Config()) on its own middleware never returned (10 s)"})
 			return false
 		}
+	} else if layer != 0 {
+		var snap http.Header
+		layered(layer, handlerFor(m, spy), &snap).ServeHTTP(w, r)
+		if snap == nil {
+			return false // answered by the outer middleware: the one under test was not reached
+		}
+		pre = snap
+		lo, hi, amb := emittedOver(snap, w.h)
+		if extra == nil {
+			extra = map[string]any{}
+		}
+		ac2 := [][]int{}
+		for _, v := range hi["Access-Control-Allow-Origin"] {
+			ac2 = append(ac2, codes(v))
+		}
+		ac1 := [][]int{}
+		for _, v := range lo["Access-Control-Allow-Origin"] {
+			ac1 = append(ac1, codes(v))
+		}
+		extra["layer"], extra["amb"] = layer, amb
+		extra["resp"], extra["acaob"] = absRespH(w.status, lo), ac1
+		extra["resp2"], extra["acaob2"] = absRespH(w.status, hi), ac2
 	} else {
 		handlerFor(m, spy).ServeHTTP(w, r)
 	}
@@ -921,8 +1006,9 @@ func cmdServe(args []string) {
 		type variant struct {
 			pre   http.Header
 			inner *innerSpec
+			layer int
 		}
-		variants := []variant{{nil, nil}}
+		variants := []variant{{nil, nil, 0}}
 		presetVary := http.Header{"Vary": {"Accept-Encoding"}, "X-Pre": {"1"}}
 		presetAll := http.Header{"Vary": {"Accept-Encoding", "Cookie"}, "X-Pre": {"1"}, "Access-Control-Allow-Origin": {"https://preset.example"},
 			"Access-Control-Max-Age": {"9"}, "Access-Control-Allow-Methods": {"PRESET"}, "Content-Type": {"text/plain"}}
@@ -932,12 +1018,16 @@ func cmdServe(args []string) {
 		switch *prop {
 		case "C10":
 			// Vary values set earlier in the chain, incl. ones that already end in / contain "Origin"
-			variants = append(variants, variant{presetVary, nil},
-				variant{http.Header{"Vary": {"Accept-Encoding, Origin"}}, nil},
-				variant{http.Header{"Vary": {"X-Forwarded-Origin"}}, nil})
+			variants = append(variants, variant{presetVary, nil, 0},
+				variant{http.Header{"Vary": {"Accept-Encoding, Origin"}}, nil, 0},
+				variant{http.Header{"Vary": {"X-Forwarded-Origin"}}, nil, 0})
 		case "C11":
-			variants = append(variants, variant{presetAll, nil}, variant{nil, busy}, variant{presetVary, silent}, variant{presetAll, busy},
-				variant{nil, &innerSpec{Status: 200, Reenter: true}})
+			variants = append(variants, variant{presetAll, nil, 0}, variant{nil, busy, 0}, variant{presetVary, silent, 0}, variant{presetAll, busy, 0},
+				variant{nil, &innerSpec{Status: 200, Reenter: true}, 0})
+		case "C03":
+			if !s.Pass {
+				variants = append(variants, variant{nil, nil, 1}, variant{nil, nil, 2})
+			}
 		}
 		for _, dbg := range []bool{false, true} {
 			m.SetDebug(dbg)
@@ -945,6 +1035,9 @@ func cmdServe(args []string) {
 			for vi, vr := range variants {
 				t.emit(map[string]any{"ev": "Block", "dbg": dbg, "variant": vi})
 				for ri, rs := range reqs {
+					if vr.layer != 0 && ri%3 != nth%3 {
+						continue // the layered variants take a third of the block
+					}
 					// the scribbling handler runs AFTER the carry-over probes (nothing may touch what the previous configuration
 					// left behind before they look at it) and again in the middle of the block, with other words
 					if ri == carryN {
@@ -961,7 +1054,7 @@ func cmdServe(args []string) {
 					if *fresh && !s.Pass {
 						extra = freshResponse(cfg, dbg, rs, vr.pre, inn)
 					}
-					if emitServe(t, m, dbg, rs, vr.pre, inn, extra) {
+					if emitServe(t, m, dbg, rs, vr.pre, inn, extra, vr.layer) {
 						panics++
 					}
 					if hung {
